@@ -16,6 +16,9 @@ MP = "EasyFEA.Models.InElastic._materialpoint"
 
 
 def run(ctx):
+    from ..shared import zero_argument_division_rule as _zero_argument_division_rule
+
+    _zero_argument_division_rule(ctx, "R19.13", scope=lambda f: f.module.name.startswith(("EasyFEA.Models.InElastic", "EasyFEA.Simulations._inelastic")))
     from ..shared import snapshot_rule as _snapshot_rule
 
     _snapshot_rule(ctx, "R19.12", scope=lambda ci: ci.module.name.startswith(("EasyFEA.Models", "EasyFEA.Simulations")))
